@@ -81,6 +81,24 @@ def directed_cases(seed: int, tier: str) -> typing.List[dict]:
                 if tier == "quick" and tpl is None and name in ("other-lang-first",) and lang == "cpp":
                     continue
                 out.append({"label": "directed-%s-%s-%s" % (name, lang, tpl), "dsdl_seed": [seed, PROP, "directed", li], "script": script})
+    # namespaces described by a "_" type; two releases of the definitions in one process (html and py have namespace files)
+    described = {
+        "roots": ["acme"],
+        "files": {
+            "acme/_.0.1.dsdl": "# The acme root namespace, release 1.\n@sealed\n",
+            "acme/A.1.0.dsdl": "# A type\nuint8 a\n@sealed\n",
+            "acme/drive/_.0.1.dsdl": "# Drives of acme.\n@sealed\n",
+            "acme/drive/B.1.0.dsdl": "acme.A.1.0 x\nuint16[<=3] y\n@sealed\n",
+            "acme/drive/deep/C.1.0.dsdl": "acme.drive.B.1.0[2] bs\n@extent 64 * 8\n",
+        },
+    }
+    for lang in ("html", "py"):
+        for name, script in (
+            ("edited-description", [{"lang": lang}, {"lang": lang, "variant": True}, {"lang": lang}]),
+            ("edited-description-first", [{"lang": lang, "variant": True}, {"lang": lang}, {"lang": lang, "entry": "cli"}]),
+            ("subset-without-description-first", [{"lang": lang, "subset_pick": 3}, {"lang": lang}, {"lang": lang, "subset_pick": 5}, {"lang": lang}]),
+        ):
+            out.append({"label": "directed-%s-%s" % (name, lang), "dsdl": described, "script": script})
     return out
 
 
@@ -221,7 +239,10 @@ def api_generate(cx: Ctx, op: dict, out_dir: str) -> typing.Dict[str, str]:
     try:
         sgen.generate_all(False, True, bool(op.get("omit_ser")), bool(op.get("audit")))
         gen.generate_all(False, True, bool(op.get("omit_ser")), bool(op.get("audit")))
-        return {type_key(t): str(p) for t, p in ns.get_all_datatypes()}
+        paths = {type_key(t): str(p) for t, p in ns.get_all_datatypes()}
+        # (namespace pseudo-types: nunavut's Namespace is itself a pydsdl.Any for which a file may be generated)
+        paths.update({"ns:" + n.full_namespace: str(p) for n, p in ns.get_all_namespaces()})
+        return paths
     finally:
         _ORDER["seed"] = None
 
@@ -487,6 +508,7 @@ def run_case(case: dict, ctx: dict) -> dict:
 
     # ---- references: the whole namespace in identity order, each in a pristine fork()ed child
     ref_cache = {}  # type: typing.Dict[str, typing.Optional[typing.Dict[str, bytes]]]
+    ref_ns_cache = {}  # type: typing.Dict[str, typing.Dict[str, bytes]]
     evaluations = 0
 
     def ref_key(op: dict) -> str:
@@ -525,10 +547,17 @@ def run_case(case: dict, ctx: dict) -> dict:
             bump("ops", "reference-fails")
             return None
         tree = {}
+        ns_tree = {}
         for tk, p in res["paths"].items():
+            if tk.startswith("ns:"):
+                if os.path.isfile(p):
+                    with open(p, "rb") as f:
+                        ns_tree[os.path.relpath(p, out_dir)] = f.read()
+                continue
             with open(p, "rb") as f:
                 tree[os.path.relpath(p, out_dir)] = f.read()
         ref_cache[k] = tree
+        ref_ns_cache[k] = ns_tree
         return tree
 
     for op in ops:
@@ -633,6 +662,20 @@ def run_case(case: dict, ctx: dict) -> dict:
                     continue
                 seen_here.add(sig)
                 violations.append({"signature": sig, "detail": {"op_index": i, "op": op, "path": rel, "history": trace[:], "first_difference": _first_diff(want, tree[rel])}})
+        if op.get("subset") is None and op.get("order_seed") is None and i > 0:
+            # The file of a namespace pseudo-type (py __init__, html index, --generate-namespace-types) legitimately depends on
+            # the company and lists its members in model order; when the same whole namespace is generated in identity order,
+            # the only thing that differs from the pristine reference is the history of this interpreter.
+            for rel, want in sorted(ref_ns_cache.get(ref_key(op), {}).items()):
+                if rel not in tree:
+                    continue
+                bump("probes", "namespace_file_compared_after_earlier_invocations")
+                if tree[rel] != want:
+                    sig = "%s:namespace-file-depends-on-earlier-invocations:%s:%s" % (PROP, op["lang"], "user-templates" if op.get("templates") else "builtin-templates")
+                    if sig in seen_here:
+                        continue
+                    seen_here.add(sig)
+                    violations.append({"signature": sig, "detail": {"op_index": i, "op": op, "path": rel, "history": trace[:], "first_difference": _first_diff(want, tree[rel])}})
         if compared:
             hist = hashlib.sha256("\n".join(trace[:-1]).encode()).hexdigest()[:10]
             states.append("%s|%s" % (hist, desc))
